@@ -11,12 +11,13 @@ Definition class_of (e : err) : eclass :=
   | ErrIO => E_IOError
   end.
 
-Inductive dexpect := XOk (v : val) | XErr (c : eclass).
+Inductive dexpect := XOk (v : val) | XErr (c : eclass) | XErrAt (c : eclass) (l : loc).
 
 Definition outcome_matches (o : outcome) (x : dexpect) : bool :=
   match o, x with
   | OOk v, XOk v' => val_eqb v v'
   | OErr e, XErr c => eclass_beq (class_of e) c
+  | OErr (Err c' l'), XErrAt c l => eclass_beq c' c && loc_eqb l' l
   | _, _ => false
   end.
 
@@ -25,6 +26,7 @@ Fixpoint items_match (l : list item) (x : list dexpect) : bool :=
   | [], [] => true
   | IOk v :: l', XOk v' :: x' => val_eqb v v' && items_match l' x'
   | IErr e :: l', XErr c :: x' => eclass_beq (class_of e) c && items_match l' x'
+  | IErr (Err c' lc) :: l', XErrAt c lx :: x' => eclass_beq c' c && loc_eqb lc lx && items_match l' x'
   | _, _ => false
   end.
 
